@@ -19,7 +19,7 @@ record last whose type matches the data records (S1/S9, S2/S8, S3/S7).
 
 Works on plain str lines and on symx proxies; record-level checks are returned as conditions
 (no branching on symbolic values).  `canon` is the optional proof-engineering hook described in
-ref/ihex.py (replace a decoded byte by an equal simpler term, equality returned as `lemmas`).
+ref/ihex.py (replace a decoded byte / digit check by an equal simpler term, proved by the caller's canon).
 """
 from symx.core import sym_and, sym_or, sym_not, ite
 
@@ -52,7 +52,7 @@ def be(bs):
 
 
 def parse_record(line, canon=None):
-    """One line (no terminator) -> dict(ok, typ, address, data, count_ok, checksum_ok, lemma), or None
+    """One line (no terminator) -> dict(ok, typ, address, data, count_ok, checksum_ok), or None
     if the text cannot be a record at all (too short, odd number of digits, type not a concrete
     decimal digit with a defined meaning, too short for its address field)."""
     cps = cps_of(line)
@@ -62,17 +62,15 @@ def parse_record(line, canon=None):
     if type(t) is not int or not (48 <= t <= 57) or (t - 48) not in ADDRESS_BYTES:
         return None
     typ = t - 48
-    conds = [cps[0] == 83]
-    bs = []
+    bs, valid = [], []
     for i in range(2, len(cps), 2):
         h, okh = hexval(cps[i])
         l, okl = hexval(cps[i + 1])
-        conds.append(okh)
-        conds.append(okl)
+        valid.append(sym_and(okh, okl))
         bs.append(h * 16 + l)
-    lemma = True
     if canon is not None:
-        bs, lemma = canon(cps[2:], bs)
+        bs, valid = canon(cps[2:], bs, valid)
+    conds = [cps[0] == 83] + valid
     na = ADDRESS_BYTES[typ]
     if len(bs) < 1 + na + 1:
         return None
@@ -82,14 +80,14 @@ def parse_record(line, canon=None):
         total = total + b
     checksum_ok = (total % 256) == 255
     return dict(ok=sym_and(count_ok, checksum_ok, *conds), typ=typ, address=be(bs[1:1 + na]),
-                data=bs[1 + na:-1], count_ok=count_ok, checksum_ok=checksum_ok, lemma=lemma)
+                data=bs[1 + na:-1], count_ok=count_ok, checksum_ok=checksum_ok)
 
 
 def decode(lines, canon=None):
     """Whole file (list of lines, no terminators) ->
-       dict(records_ok, structure_ok, lemmas, header=[bytes]|None, data=[(address, [bytes])...] in file
+       dict(records_ok, structure_ok, header=[bytes]|None, data=[(address, [bytes])...] in file
             order, data_types=set, termination=(typ, address)|None)"""
-    rconds, conds, lemmas = [], [], []
+    rconds, conds = [], []
     header = None
     data = []
     types = set()
@@ -105,7 +103,6 @@ def decode(lines, canon=None):
             rconds.append(False)
             continue
         rconds.append(r["ok"])
-        lemmas.append(r["lemma"])
         typ = r["typ"]
         if typ == 0:
             conds.append(n == 1)          # the header record comes first
@@ -125,7 +122,7 @@ def decode(lines, canon=None):
         for t in types:
             conds.append(TERMINATION_OF[t] == term[0])
     return dict(records_ok=sym_and(*rconds) if rconds else True, structure_ok=sym_and(*conds),
-                lemmas=sym_and(*lemmas) if lemmas else True, header=header, data=data,
+                header=header, data=data,
                 data_types=types, termination=term)
 
 
